@@ -4,7 +4,8 @@ REG = dict(
     technique='bounded-exhaustive enumeration of every core-fragment program up to a weighted size, executed on the real interpreter and by an independent reference interpreter (differential)',
     text="Every program of the core grammar of gvlib/coregen.py (let/assignment/+=, println(string_repr(e)), if/else, guarded while, for-in, break, continue, return, "
          "named functions f(a)/h(a,b) with guarded recursion, one closure, match over Option/Result/a user enum, value-position if/match; <=2 functions, <=3 top-level "
-         "statements, <=3 statements per block, block depth <=3) whose weighted size is <=5 (quick, about 59 k programs) or <=6 (thorough, about 850 k) is generated exactly once, "
+         "statements, <=3 statements per block, block depth <=3) whose weighted size is <=5 (quick, about 60 k programs) or <=6 (thorough, about 860 k) is generated exactly once, "
+         "including every binary operator of the fragment with a printing call in both operands (operand order), "
          "simplest first, run by the real interpreter (`run` job, tick limit 20000) and by gvlib/refint.py, an environment-passing interpreter written from the manual pages. "
          "stdout must be identical and the outcome kind (ok | exception | assertion) equal. Exhaustive within the grammar and bound; no sampling.",
     note="Only the fragment where every reasonable semantics agrees is generated (DESIGN.md section 5): sibling operands have at most one effectful member, captured variables are "
